@@ -11,7 +11,7 @@ done
 wait
 fi
 only=""
-for p in "$@"; do for d in /verif/seeded/$p-[4-9]; do [ -d "$d" ] && only="$only $(basename $d)"; done; done
+for p in "$@"; do for d in /verif/seeded/$p-${MX_GLOB:-[4-9]}; do [ -d "$d" ] && only="$only $(basename $d)"; done; done
 echo "confirmed:$only"
 rsync -a --delete --exclude .git --exclude seeded --exclude replays /verif/ ${MXDIR:-/tmp/mx}/verif/
 mkdir -p ${MXDIR:-/tmp/mx}/verif/replays
